@@ -714,6 +714,20 @@ pub fn run(cx: &mut Cx) {
                     w.extend_from_slice(&buf);
                     r
                 }, &|| rp(&what));
+                // "any context" includes one whose entries hold an undefined value themselves: as a declared argument, and
+                // as an undeclared one that goes to the rest map (only the API can hand such a context to a component)
+                for (k, which) in [("a", "declared"), ("extra_undefined", "undeclared"), ("n", "typed")] {
+                    let mut c2 = ctx.clone();
+                    c2.insert_value(k, tera::Value::undefined());
+                    let what = format!("render_component {c} with an undefined {which} argument");
+                    render_checked(cx, &tera, &what, &|w| {
+                        let mut buf = Vec::new();
+                        let r = tera.render_component_to(c, &c2, None, false, &mut buf);
+                        w.extend_from_slice(&buf);
+                        r
+                    }, &|| rp(&what));
+                    cx.count("component_renders_with_undefined_arguments", 1);
+                }
             }
         }
         let p2 = program.templates.clone();
